@@ -189,6 +189,7 @@ CHECKS = {
         "level_note": "Trusted: untrusted connections are driven at the message-handler level with the same shared objects the real UntrustedNode uses (state, mempool, tx channel, block repository); their goroutines and sockets are exercised by the L1/C19 engine only.",
         "runs": [
             {"pkg": "internal/spynode", "test": "TestVerif_C12"},
+            {"pkg": "internal/spynode", "test": "TestVerif_C12L1"},
             {"pkg": "internal/spynode", "test": "TestVerif_C12Delay"},
         ],
     },
